@@ -243,8 +243,8 @@ func c19BigEnv(w *mon.W) {
 		n := w.Cfg.Pick(140000, 400000)
 		for k := 0; k < n; k++ {
 			i := 2 + k%6 // the narrow ranges ...
-			if k%5000 == 4999 {
-				i = (k / 5000) % 2 // ... and now and then a wide one
+			if k%70001 == 70000 {
+				i = (k / 70001) % 2 // ... and, more than 2^16 queries apart, a wide one
 			}
 			if i == 7 && k%64 != 7 {
 				i = 2
